@@ -9,5 +9,5 @@ CONSTANTS
   PreOps <- PreNone
   SibFields <- NoFields
   TamperMax = 0
-INVARIANTS TypeOK PIdStable PRoundTrip PRedactKeeps PV12 Emit
+INVARIANTS TypeOK PIdStable PRoundTrip PRedactKeeps PV12 PBuildOrRefuse Emit
 CHECK_DEADLOCK FALSE
